@@ -18,20 +18,31 @@ RULE = ("cases = scenarios (cfg line + steps) over the real client and server en
         "tenth random scenario uses MAX_CHANNEL in {2,3,4,6}; a scenario is non-trivial when at least two distinct "
         "oracle events occurred; distinct = distinct (cfg, step list)")
 MANIFEST = dict(
-    level_text=("Machine-checked Lean 4 theorems over a statement-by-statement model of ondns/dns_done/"
-                "expire_connections, Mux.next_channel, DnsProxy.__init__/try_send/callback, dns_req and the "
-                "dnshandlers sweep: payloads are never altered on any hop (C10_verbatim), every datagram sent to an "
-                "asker goes to the asker recorded for that query from its original destination (C10_right_asker), "
-                "at most one datagram per query for every sequence of events and arbitrary incoming frames "
-                "(C10_at_most_once), at most three resolver sockets per query and a retry only after a NET_ERRS "
-                "errno (C10_tries), release on answer / lazy expiry without disturbing newer queries (C10_release). "
-                "Tied to the code on every run by a differential run of the real client and the real server.main "
-                "loop on fake sockets, plus an implementation-level oracle."),
-    level_note=("Trusted: Lean kernel; propext/Classical.choice/Quot.sound only; the harness and its fake sockets/"
-                "clock; the tunnel as a FIFO of frames (C07). Matching a reply to *its* query end to end needs "
-                "'no id is reassigned while an old server handler lives' (C10_full_false: false for small "
-                "MAX_CHANNEL, recorded as known finding). The model keeps all per-query server state (socks, peers, tries) in the handler record, which a round drops once ok=false (C10_one_live_socket bounds it); that the runtime then closes the descriptors is NOT modelled in Lean: it is checked on the real code by the harness's resource oracle (sockets of retired queries must be released; EMFILE under a 16-descriptor budget in a 40-query sequential history). Real resolvers and random.shuffle's distribution are outside."),
-    technique="Lean 4 proof (invariants by induction over arbitrary step lists) + differential correspondence with the real code",
+    level_text=("Machine-checked Lean 4 theorems (core only) over a statement-by-statement model of ondns/dns_done/"
+                "expire_connections, Mux.next_channel, resolvconf_nameservers' line rule, DnsProxy.__init__/try_send/callback, "
+                "dns_req and the server loop's round + sweeps, for ALL scripts: (C10_reply_goes_to_its_asker) in every honest "
+                "run of both ends joined by the tunnel in which no id is given to two queries, every datagram sent for a query "
+                "goes to the address that asked, from its original destination, and is unchanged a datagram read from a "
+                "resolver socket of the handler created for that query's own bytes — an invariant over arbitrary step lists; "
+                "(C10_attempts_per_query) over the whole life of a query, for every interleaving of send errors, receive "
+                "errors of any errno, replies, duplicates and sweeps: at most DNS_MAX_TRIES (=3, regenerated) sockets/datagrams "
+                "per QUERY (not per try_send call), each the query verbatim, at most one DNS_RESPONSE, and the relayed reply "
+                "arrived on one of those sockets; (C10_at_most_once / C10_right_asker) on the client for arbitrary incoming "
+                "frames; hop-wise verbatim, retry only on NET_ERRS, release on answer/expiry, one clock domain "
+                "(C10_one_clock + pin of every clock read), resolv.conf trailing text ignored. Tied to the code on every run "
+                "by a differential run of the real client and the real server.main loop on fake sockets plus an "
+                "implementation-level oracle (incl. socket-release and descriptor-budget oracles)."),
+    level_note=("Trusted: Lean kernel; propext/Classical.choice/Quot.sound only; the harness and its fake sockets/clock; the "
+                "tunnel as a FIFO of frames (C07). The end-to-end theorem needs 'no id is reassigned' (hypothesis on the run; "
+                "C10_full_false proves it cannot be dropped: witness with MAX_CHANNEL=2, recorded as known finding F19) and is "
+                "stated for DNS-only honest runs (no UDP capture, no forged frame; one ready descriptor per server round). "
+                "The model keeps all per-query server state (socks, peers, tries) in the handler record, which a round drops "
+                "once ok=false (C10_one_live_socket bounds it); that the runtime then closes the descriptors is NOT modelled "
+                "in Lean: it is checked on the real code by the harness's resource oracle (sockets of retired queries must be "
+                "released; EMFILE under a 16-descriptor budget in a 40-query sequential history). Which clock a read uses is a "
+                "pin on the source (Gen.C10.CLOCK_READS), the model has one clock parameter per event. Real resolvers and "
+                "random.shuffle's distribution are outside."),
+    technique="Lean 4 proof (invariants by induction over arbitrary step lists, whole-life induction per query) + differential correspondence with the real code",
 )
 DRIVER_TARGETS = ['SshuttleModel.Code.DgramSys', 'SshuttleModel.Gen.C10', 'SshuttleModel.Gen.C11']
 EXTRA_TARGETS = DRIVER_TARGETS
